@@ -144,22 +144,28 @@ def build_request(unit, inst, contracts):
     reqs = []
     order = []
     for mode in ("decl", "body", "stub"):
-        for iid in unit.get(mode, "").split():
+        for tok in unit.get(mode, "").split():
+            m = re.match(r"^([^{]+)(?:\{(.*)\})?$", tok)
+            iid, ov = m.group(1), m.group(2)
             if iid not in contracts:
                 raise Machinery("unit %s names unknown contract item %s" % (unit["name"], iid))
-            order.append((mode, iid))
-    # keep the order given in 'order:' if present, else decl, body, stub
-    for mode, iid in order:
+            over = dict(kv.split("=", 1) for kv in ov.split(",")) if ov else {}
+            order.append((mode, iid, tok, over))
+    for mode, iid, tok, over in order:
         c = contracts[iid]
+        uinst = inst
+        inst = dict(uinst)
+        inst.update(over)
         sub = {}
-        default_subst = c.get("subst")
+        default_subst = c.get("subst " + mode, c.get("subst"))
         if default_subst is None:
             default_subst = " ".join("%s=${%s}" % (k, k) for k in inst)
         for kv in subst_vars(default_subst, inst).split():
             k, v = kv.split("=", 1)
             sub[k] = v
         req = {
-            "id": iid,
+            "id": tok,
+            "cid": iid,
             "file": c["file"],
             "path": c["path"].strip(),
             "mode": mode,
@@ -201,6 +207,7 @@ def build_request(unit, inst, contracts):
             req["closures"] = {}
             req["loops"] = {}
         reqs.append(req)
+        inst = uinst
     return reqs
 
 
@@ -328,6 +335,8 @@ def assemble(unit, inst, contracts, outs):
     if glue.strip():
         a.add("// ===== glue: lemmas over the contracts above", "glue")
         a.add(glue, "glue", "glue:" + unit["name"])
+    # vacuity guard: with every assumed contract and broadcast axiom in scope, `false` must NOT be provable
+    a.add("proof fn vx_canary() { assert(false); } // vx_canary: this assertion must fail", "glue", "glue:canary")
     a.add("} // verus!", "header")
     a.add("fn main() {}", "header")
     return a, byid
@@ -436,7 +445,7 @@ def classify(asm, res, contracts, unit):
         item = clause_item if ("postcondition" in msg and clause_item and not str(clause_item).startswith("prelude")) else code_item
         props = tprops
         if props is None:
-            c = contracts.get(item) if item else None
+            c = contracts.get(str(item).split("{")[0]) if item else None
             if c is not None and c.get("props") is not None:
                 props = c["props"].split()
             else:
@@ -519,10 +528,13 @@ if __name__ == "__main__":
         print("MACHINERY:", e)
         sys.exit(2)
     print("unit %s %s: verified=%d errors=%d  tags=%d  file=%s  wall=%.1fs" % (unit, inst, r["verified"], r["errors"], len(r["tags"]), r["path"], r["res"]["wall"]))
-    for f in r["fails"]:
+    shown = [f for f in r["fails"] if "vx_canary" not in f["rendered"]]
+    if len(shown) == len(r["fails"]) and not r["mach"]:
+        print("CANARY DID NOT FAIL: assumptions inconsistent?")
+    for f in shown:
         print("FAIL", f["obligation"], f["props"], f["message"])
         print(f["rendered"])
     for m in r["mach"]:
         print("MACH", m["message"])
         print(m["rendered"][:3000])
-    sys.exit(1 if r["fails"] else (2 if r["mach"] else 0))
+    sys.exit(1 if shown else (2 if r["mach"] else 0))
